@@ -35,6 +35,49 @@
      NOT claimed: that the partial output of the failing node n itself is a prefix of what n
      "would have" produced - the model is deterministic, there is no successful run of the
      same node on the same state to compare with. *)
+(* ---- second part (statements appended below) ---- *)
+(* Property C14, the wrappers - the Go code of the four entry points means what the C14
+   specification says.
+
+   Props/C14.v proves its theorems about execute, execute_bytes, execute_writer and
+   execute_writer_unbuffered of Spec/SpecWriter.v, which were written by hand after reading
+   template.go.  Here the Go functions themselves - Execute, ExecuteBytes, ExecuteWriter,
+   ExecuteWriterUnbuffered and what they are made of: newBufferAndExecute,
+   newTemplateWriterAndExecute, execute, templateWriter.Write/WriteString - are translated on
+   every run from /repo/template.go, statement by statement, into terms of a small Go fragment
+   (tools/go2v/wrappers.go -> gen/Wrappers.v; syntax in Lib/GoStmt.v), the fragment has an
+   executable meaning (Spec/SpecWrappers.v: [go_call prog via se globals d recv m args world]
+   is the run of recv.m(args)), and the theorems say that the run of each translated function
+   IS the specification function, for every fuel, state, template, context and writer.  So a
+   change of template.go that makes ExecuteWriter stream into the caller's writer, write the
+   buffer before it looks at the error, swallow the writer's error, hand out the buffer of a
+   failed run ... no longer proves (Tie/C14w.v does not compile), and a change that leaves the
+   translated fragment (a loop, a defer, a goroutine) is a GSUnknown node: the translator
+   reports a PROBLEM and the interpretation is "not understood" (C14w_unknown_blocks).
+
+   Arguments of every statement: [via] is the TemplateWriter method the nodes write with
+   (Write or WriteString - the statements hold for both), [d] bounds the call depth (any d >= 6).
+   What the wrappers call but do not define is primitive in Spec/SpecWrappers.v: bytes.Buffer,
+   the caller's writer (SpecWriter.w_write), and the two halves of the model's streaming
+   executor: newContextForExecution = new_context, root.Execute = root_execute.
+
+   What each theorem contributes:
+   - C14w_execute_is_model: those two halves, put together the way Template.execute does it, are
+     the model's exec_template_unbuffered - the interpretation has no second model in it.
+   - C14w_ExecuteWriter / C14w_ExecuteWriterUnbuffered / C14w_Execute / C14w_ExecuteBytes: the
+     run of the translated entry point, read as (writer afterwards, nil / execution error /
+     writer's error) resp. as (value | error), equals execute_writer / execute_writer_unbuffered
+     / execute / execute_bytes.  With Props/C14.v: the Go ExecuteWriter leaves the writer
+     untouched on failure and hands back the writer's error, etc.
+   - C14w_newBufferAndExecute: the buffer with a nil error, or NIL and the error - never a
+     buffer together with an error; C14w_newTemplateWriterAndExecute, C14w_execute_writer,
+     C14w_execute_buffer: Template.execute streams the output-so-far into the TemplateWriter it
+     is given (the wrapped caller's writer, or a buffer: appended) and returns the error.
+   - C14w_templateWriter_Write / _WriteString: both are the caller's Write, error handed back.
+   - C14w_no_writer_no_write: Execute, ExecuteBytes, newBufferAndExecute leave a caller's
+     writer alone.
+   NOT claimed: anything about newContextForExecution's or the nodes' own Go code (that is the
+   model, checked by the correspondence run), nor about ExecuteBlocks. *)
 From PV Require Import Model.Api Spec.SpecRender Spec.SpecWriter gen.Tables.
 From PV Require Import Tie.C14.
 Open Scope N_scope.
@@ -143,3 +186,142 @@ Example C14_witness :
     execute_writer_unbuffered c14_senv [] 100 (mkM [] [] g') t' [] (c14_w None) = (mkW [62; 97; 98; 49; 99; 100] None, WOk) /\
     execute_writer c14_senv [] 100 (mkM [] [] g') t' [] (c14_w (Some 4%nat)) = (mkW [62; 97; 98; 49] (Some 4%nat), WWriteErr).
 Proof. exact tie_c14_witness. Qed.
+
+
+(* ==================== second part ==================== *)
+
+From PV Require Import Model.Api Spec.SpecWriter Lib.GoStmt Spec.SpecWrappers gen.Wrappers gen.Tables.
+From PV Require Import Tie.C14 Tie.C14w.
+
+From Coq Require Import String.
+Open Scope string_scope.
+
+Theorem C14w_execute_is_model : forall se globals fuel st t ctx,
+  exec_template_unbuffered se globals fuel st t ctx =
+  match new_context globals fuel st t ctx with
+  | Ok (parent, f, st') => root_execute se globals f st' parent
+  | Err k => ([], Err k)
+  | Unmod => ([], Unmod)
+  | Fuel => ([], Fuel)
+  | Panic s => ([], Panic s)
+  end.
+Proof. exact exec_unbuffered_prim. Qed.
+Print Assumptions C14w_execute_is_model.
+
+Theorem C14w_ExecuteWriter : forall via, In via stream_methods -> forall d, (6 <= d)%nat ->
+  forall se globals fuel st t ctx (w : writer),
+  as_writer_result (go_call go_wrappers via se globals d (GVTemplate t) "ExecuteWriter" [GVContext ctx; GVWriter]
+                            (world0 w fuel st))
+  = Some (execute_writer se globals fuel st t ctx w).
+Proof. exact tie_ExecuteWriter. Qed.
+Print Assumptions C14w_ExecuteWriter.
+
+Theorem C14w_ExecuteWriterUnbuffered : forall via, In via stream_methods -> forall d, (6 <= d)%nat ->
+  forall se globals fuel st t ctx (w : writer),
+  as_writer_result (go_call go_wrappers via se globals d (GVTemplate t) "ExecuteWriterUnbuffered"
+                            [GVContext ctx; GVWriter] (world0 w fuel st))
+  = Some (execute_writer_unbuffered se globals fuel st t ctx w).
+Proof. exact tie_ExecuteWriterUnbuffered. Qed.
+Print Assumptions C14w_ExecuteWriterUnbuffered.
+
+(* on failure Execute returns "" and the error, ExecuteBytes nil and the error *)
+Theorem C14w_Execute : forall via, In via stream_methods -> forall d, (6 <= d)%nat ->
+  forall se globals fuel st t ctx (w : writer),
+  as_value_result (GVBytes []) (go_call go_wrappers via se globals d (GVTemplate t) "Execute" [GVContext ctx]
+                                        (world0 w fuel st))
+  = Some (execute se globals fuel st t ctx).
+Proof. exact tie_Execute. Qed.
+Print Assumptions C14w_Execute.
+
+Theorem C14w_ExecuteBytes : forall via, In via stream_methods -> forall d, (6 <= d)%nat ->
+  forall se globals fuel st t ctx (w : writer),
+  as_value_result GVNil (go_call go_wrappers via se globals d (GVTemplate t) "ExecuteBytes" [GVContext ctx]
+                                 (world0 w fuel st))
+  = Some (execute_bytes se globals fuel st t ctx).
+Proof. exact tie_ExecuteBytes. Qed.
+Print Assumptions C14w_ExecuteBytes.
+
+Theorem C14w_newBufferAndExecute : forall via, In via stream_methods -> forall d, (6 <= d)%nat ->
+  forall se globals fuel st t ctx (w : writer),
+  as_buffer_result (go_call go_wrappers via se globals d (GVTemplate t) "newBufferAndExecute" [GVContext ctx]
+                            (world0 w fuel st))
+  = Some (buffer_and_execute se globals fuel st t ctx).
+Proof. exact tie_newBufferAndExecute. Qed.
+Print Assumptions C14w_newBufferAndExecute.
+
+Theorem C14w_newTemplateWriterAndExecute : forall via, In via stream_methods -> forall d, (6 <= d)%nat ->
+  forall se globals fuel st t ctx (w : writer),
+  as_writer_result (go_call go_wrappers via se globals d (GVTemplate t) "newTemplateWriterAndExecute"
+                            [GVContext ctx; GVWriter] (world0 w fuel st))
+  = Some (execute_writer_unbuffered se globals fuel st t ctx w).
+Proof. exact tie_newTemplateWriterAndExecute. Qed.
+Print Assumptions C14w_newTemplateWriterAndExecute.
+
+(* Template.execute given &templateWriter{w: the caller's writer} *)
+Theorem C14w_execute_writer : forall via, In via stream_methods -> forall d, (6 <= d)%nat ->
+  forall se globals fuel st t ctx (w : writer),
+  as_writer_result (go_call go_wrappers via se globals d (GVTemplate t) "execute" [GVContext ctx; tw_value]
+                            (world0 w fuel st))
+  = Some (execute_writer_unbuffered se globals fuel st t ctx w).
+Proof. exact tie_execute_writer. Qed.
+Print Assumptions C14w_execute_writer.
+
+(* Template.execute given a buffer that holds b0: afterwards it holds b0 and the output-so-far *)
+Theorem C14w_execute_buffer : forall via, In via stream_methods -> forall d, (6 <= d)%nat ->
+  forall se globals fuel st t ctx (w : writer) (b0 : str),
+  as_buffer0_result (go_call go_wrappers via se globals d (GVTemplate t) "execute" [GVContext ctx; GVBuffer 0]
+                             (mkGW w [b0] fuel st))
+  = (let '(o, r) := exec_template_unbuffered se globals fuel st t ctx in Some ((b0 ++ o)%list, failure_of r)).
+Proof. exact tie_execute_buffer. Qed.
+Print Assumptions C14w_execute_buffer.
+
+Theorem C14w_templateWriter_Write : forall via d, (2 <= d)%nat -> forall se globals (s : str) (w : writer) fuel st,
+  as_write_result (go_call go_wrappers via se globals d tw_value "Write" [GVBytes s] (world0 w fuel st))
+  = Some (w_write w s).
+Proof. exact tie_templateWriter_Write. Qed.
+Print Assumptions C14w_templateWriter_Write.
+
+Theorem C14w_templateWriter_WriteString : forall via d, (2 <= d)%nat -> forall se globals (s : str) (w : writer) fuel st,
+  as_write_result (go_call go_wrappers via se globals d tw_value "WriteString" [GVBytes s] (world0 w fuel st))
+  = Some (w_write w s).
+Proof. exact tie_templateWriter_WriteString. Qed.
+Print Assumptions C14w_templateWriter_WriteString.
+
+Theorem C14w_no_writer_no_write : forall via, In via stream_methods -> forall d, (6 <= d)%nat ->
+  forall se globals fuel st t ctx (w : writer) m, In m ["Execute"; "ExecuteBytes"; "newBufferAndExecute"] ->
+  match go_call go_wrappers via se globals d (GVTemplate t) m [GVContext ctx] (world0 w fuel st) with
+  | GOk (_, w') => gw_out w' = w
+  | _ => False
+  end.
+Proof. exact tie_Execute_no_write. Qed.
+Print Assumptions C14w_no_writer_no_write.
+
+(* a function with a statement that was not understood: its run is never a result *)
+Theorem C14w_unknown_blocks : forall via se globals d t ctx gw,
+  as_writer_result (go_call [c14w_unknown_demo] via se globals (S d) (GVTemplate t) "ExecuteWriter"
+                            [GVContext ctx; GVWriter] gw) = None.
+Proof. exact tie_unknown_blocks. Qed.
+Print Assumptions C14w_unknown_blocks.
+
+(* Non-vacuity: the C14 witness templates run through the translated Go wrappers.
+   "ab{{ 1/0 }}cd": ExecuteWriter fails and leaves the writer (holding ">") alone,
+   ExecuteWriterUnbuffered has written "ab".  "ab{{ 1 }}cd": Execute gives "ab1cd"; ExecuteWriter
+   into a writer that takes 4 bytes in total ends with ">ab1" and the writer's error. *)
+Example C14w_witness :
+  exists t g t' g',
+    compile_src c14_senv 100 c14_name true c14_src g0 = Ok (t, g) /\
+    compile_src c14_senv 100 c14_name true c14_src_ok g0 = Ok (t', g') /\
+    as_writer_result (go_call go_wrappers "WriteString" c14_senv [] 6 (GVTemplate t) "ExecuteWriter"
+                              [GVContext []; GVWriter] (world0 (c14_w None) 100 (mkM [] [] g)))
+      = Some (c14_w None, WExecFail (FErr 3)) /\
+    as_writer_result (go_call go_wrappers "WriteString" c14_senv [] 6 (GVTemplate t) "ExecuteWriterUnbuffered"
+                              [GVContext []; GVWriter] (world0 (c14_w None) 100 (mkM [] [] g)))
+      = Some (mkW [62; 97; 98]%N None, WExecFail (FErr 3)) /\
+    as_value_result (GVBytes []) (go_call go_wrappers "Write" c14_senv [] 6 (GVTemplate t') "Execute"
+                              [GVContext []] (world0 (c14_w None) 100 (mkM [] [] g')))
+      = Some (inl [97; 98; 49; 99; 100]%N) /\
+    as_writer_result (go_call go_wrappers "Write" c14_senv [] 6 (GVTemplate t') "ExecuteWriter"
+                              [GVContext []; GVWriter] (world0 (c14_w (Some 4%nat)) 100 (mkM [] [] g')))
+      = Some (mkW [62; 97; 98; 49]%N (Some 4%nat), WWriteErr).
+Proof. exact tie_c14w_witness. Qed.
+Print Assumptions C14w_witness.
